@@ -469,4 +469,65 @@ theorem writeSegs_eq_lay (ps : Nat) : ∀ (slots : List Slot) (fsize off n : Nat
               · rw [if_neg (by intro hx; exact hpc hx.2.2), if_neg (by omega), if_neg (by omega),
                   if_neg (by intro hx; exact hpc hx.2.2)]
 
+/-! ## the reference machine and the refinement -/
+
+/-- **writes refine the two-layer reference** -/
+theorem write_eq_lay (st : St) (off : Int) (d : Bytes) (h : PInv st) : write st off d = layWrite st off d := by
+  unfold write layWrite
+  split
+  · rfl
+  · simp only []
+    split
+    · rfl
+    · generalize hr : (if off.toNat + d.length > st.fsize then ensureSize st (off.toNat + d.length) else (Rc.ok, st)) = r
+      have hri : PInv r.2 ∧ (r.1 = .ok → off.toNat + d.length ≤ r.2.fsize) := by
+        rw [← hr]; split
+        · exact ⟨ensureSize_PInv _ _ h, ensureSize_ok_ge _ _ h.size.1⟩
+        · exact ⟨h, fun _ => by show off.toNat + d.length ≤ st.fsize; omega⟩
+      obtain ⟨rc, st1⟩ := r
+      simp only []
+      split
+      · rfl
+      · rename_i hok
+        have hok' : rc = .ok := by simpa using hok
+        have hb := hri.2 hok'
+        have hdisk := hri.1.disk
+        simp only [] at hb hdisk
+        rw [writeSegs_eq_lay st1.psize st1.slots st1.fsize off.toNat d.length d st1.file hri.1.win rfl (by omega)]
+
+/-- the two-layer reference machine: reads through the view, writes into the two layers, no request splitting; everything
+    else (sizes, window management, the single-window stores of `copy`/`mmap`, the file-layer copy) as in the model -/
+def layExec (st : St) : Op → St × Rc × Bytes
+  | .write off d => let r := layWrite st off d; (r.2.2, r.1, [])
+  | .read off n => let r := layRead st off n; (st, r.1, r.2)
+  | op => exec st op
+
+def layRun (st : St) : List Op → St × List (Rc × Bytes)
+  | [] => (st, [])
+  | op :: ops =>
+    let r := layExec st op
+    let r2 := layRun r.1 ops
+    (r2.1, (r.2.1, r.2.2) :: r2.2)
+
+theorem exec_eq_lay (st : St) (op : Op) (h : PInv st) : exec st op = layExec st op := by
+  cases op with
+  | write off d => simp only [exec, layExec, write_eq_lay _ _ _ h]
+  | read off n => simp only [exec, layExec, read_eq_lay _ _ _ h.win h.disk]
+  | copy _ _ _ => rfl
+  | mmapWrite _ _ _ => rfl
+  | truncate _ => rfl
+  | ensure _ => rfl
+  | addMmap _ _ _ => rfl
+  | removeMmap _ => rfl
+  | remapAll => rfl
+
+theorem run_eq_layRun : ∀ (ops : List Op) (st : St), PInv st → run st ops = layRun st ops
+  | [], _, _ => rfl
+  | op :: ops, st, h => by
+    have he := exec_eq_lay st op h
+    have h' := exec_PInv st op h
+    rw [he] at h'
+    simp only [run, layRun, he]
+    rw [run_eq_layRun ops _ h']
+
 end IwModel.Exf
